@@ -1,9 +1,9 @@
 CONSTANTS
-  N = 3
+  N = 2
   NG = 2
   MaxVal = 1
   MaxLen = 2
-  PopCfgs = {1, 2, 3, 4}
+  PopCfgs = {1, 2, 3}
   SelNs = {1, 2, 3, 5, 8}
   Biases <- BiasesDefault
   KnownDeviations = {}
